@@ -38,6 +38,7 @@ def _patch_edits(patch_path):
     """A unified diff as a list of {file, old, new} edits (one per hunk; located by text, not by line number)."""
     edits, cur_file, old, new = [], None, None, None
     line_no = 0
+    last_kind = " "
     import re
 
     def flush():
@@ -58,6 +59,14 @@ def _patch_edits(patch_path):
                 mm = re.match(r"@@ -(\d+)", line)
                 line_no = int(mm.group(1)) if mm else 0
             elif old is not None:
+                if line.startswith("\\ No newline"):
+                    # the previous line is the file's last line and has no newline
+                    if last_kind in ("-", " ") and old:
+                        old[-1] = old[-1].rstrip("\n")
+                    if last_kind in ("+", " ") and new:
+                        new[-1] = new[-1].rstrip("\n")
+                    continue
+                last_kind = line[:1]
                 if line.startswith("-"):
                     old.append(line[1:])
                 elif line.startswith("+"):
